@@ -35,8 +35,12 @@ ASSUMPTIONS = [
     "the DFS while-loop and the enumeration loops are proved partially correct (no decreases clause)",
     "completeness is stated for pseudoknotted structures; for pseudoknot-free ones the single member is BpSeq.fcfs (round "
     "brackets only, proved)",
-    "FC_definition (definitional lemma of contracts.common_c, listed under C01) is used for fcfs's own stem list on the "
-    "pseudoknot-free path only",
+    "FC_definition (definitional lemma of contracts.common_c; existence and uniqueness of FC proved in lean/Definitional.lean, see C01) is used "
+    "for fcfs's own stem list fcfs_R on the pseudoknot-free path only; on the pseudoknotted path FC_def(regions) occurs only as a HYPOTHESIS "
+    "(inside fc_is, clause fcfs-notation-is-a-member), which is satisfiable by FC_definition_consistent - the clause is not vacuous; the two "
+    "uses lie in disjoint cases (knot_free / not knot_free), so the one-stem-list-per-context discipline (FC_definition_one_R_per_context) is "
+    "kept. levels30(self) is constrained only by levels30_definition (consistent together with FC_definition: levels30_definition_consistent) "
+    "and serves as the precondition of the BpSeq.fcfs call",
 ]
 EXPLANATION = (
     "Under contract (contracts.common_all_c, reusing contracts.common_c): BpSeq.all_dot_brackets (all ten loops) and a "
